@@ -1,4 +1,5 @@
 import ReplicatProofs.Lemmas.RetryRun
+import ReplicatProofs.Lemmas.RetryCredRun
 /-!
 # C12 — transient backend faults are masked, persistent ones end in a bounded error
 
@@ -28,6 +29,21 @@ sink contents and fault plans.
 * `rewind_needed`, `truncate_needed`, `cleanup_needed` — the same model without `seek(0)` / `truncate` / `unlink` violates `masked`
   (the theorems are not vacuous, and each extracted flag matters).
 * `fuel_enough` — the fuel of the model is never the reason for stopping.
+
+Sessions — credentials with a lifetime on ONE long-lived B2 object (`ReplicatModel/RetryCred.lean`; helper lemmas `Lemmas/RetryCred.lean`,
+`RetryCredRun.lean`): the service is stateful about which account tokens, upload URLs and upload tokens it still accepts; expiry /
+revocation events happen between the operations of a history.
+* `credentials_cfg_sound` — extracted: `_get_upload_url_token` asks for NEW upload credentials on every call and keeps nothing on
+  the object, upload / upload_stream fetch them inside the retried body, every method is `requires_auth(backoff_reauth(…))`, a 401
+  becomes `AuthRequired`, `AuthRequired` is answered with a re-authentication (`decide`).
+* `credential_expiry_masked` — ANY state of service and object (whatever was issued, expired, revoked, cached before), any operation:
+  it returns what the abstract store says, the store is what the abstract store says, after at most 5 requests, at most one
+  re-authorisation, no back-off sleep — and leaves a valid account token.
+* `session_refines_store` — every history of operations and credential events: every operation returns the abstract store's answer,
+  each within those bounds.
+* `cached_upload_credentials_unbounded_witness` — the same model with upload credentials KEPT on the object: once the service stops
+  accepting them, an upload never ends (every round re-authorises the account and presents the dead upload token again) and stores
+  nothing; one upload followed by one expiry event produces such a state (the extracted flag matters).
 -/
 namespace Replicat.C12
 open Replicat Replicat.Retry
@@ -246,7 +262,87 @@ theorem fuel_enough (b : Backend) (c : Nat) (hc : 0 < c) (data : Bytes) (old : O
   ⟨runUp_fuel_enough b (cfgOf b) (cfg_sound b).1 c hc data old plan fuel hfuel,
    runDown_fuel_enough b (cfgOf b) (cfg_sound b).2.1 c hc data sink0 file plan fuel hfuel⟩
 
+/-! ## sessions: credentials with a lifetime on one long-lived B2 object -/
+
+open Replicat.Cred in
+/-- The configuration of the session model extracted from the current source: upload credentials are requested afresh by every
+call of `_get_upload_url_token` (nothing about them is kept on the object), `upload` / `upload_stream` call it inside the body that
+is retried and re-authenticated, every B2 method that talks to the service is `requires_auth(backoff_reauth(…))`, the response hook
+turns a 401 into `AuthRequired` and `requires_auth` answers `AuthRequired` with `authenticate()` and another call. -/
+theorem credentials_cfg_sound :
+    Cred.Sound Cred.cfgB2 ∧ Gen.retryB2UploadCredsInAttempt = true ∧ Cred.cfgB2.decorated = true ∧ Cred.cfgB2.requiresAuth = true := by
+  decide
+
+open Replicat.Cred in
+/-- **Expired / revoked credentials are masked, within a constant number of requests.**  Take ANY state of the service and of the
+long-lived backend object — whatever account tokens, upload URLs and upload tokens were issued, have expired or were revoked, whether
+the object has authenticated, knows its bucket, holds a dead account token — and any operation (upload, download of an object that
+is there, exists, delete, list).  The operation returns normally with exactly what the abstract store `Name → Option Bytes` says,
+the objects at the service are what the abstract store says, the service saw at most 5 requests of which at most one is a
+re-authorisation, nothing slept — and the object is left with a valid account token. -/
+theorem credential_expiry_masked (F : Nat) (hF : 2 ≤ F) (s : Sess) (hw : WF s) (o : Op) (hp : Present s.store o) :
+    (runOp cfgB2 F o none s).1.out = .ok (specVal (specStore s.store o) o) ∧
+    (runOp cfgB2 F o none s).2.store = specStore s.store o ∧
+    (runOp cfgB2 F o none s).1.requests ≤ 5 ∧ (runOp cfgB2 F o none s).1.auths ≤ 1 ∧ (runOp cfgB2 F o none s).1.sleeps = 0 ∧
+    WF (runOp cfgB2 F o none s).2 ∧ (runOp cfgB2 F o none s).2.acctOk = true := by
+  obtain ⟨f, rfl⟩ : ∃ f, F = f + 2 := ⟨F - 2, by omega⟩
+  obtain ⟨h1, h2, h3, h4, h5, h6, _, h8⟩ := runOp_spec cfgB2 credentials_cfg_sound.1 f o s hw hp
+  exact ⟨h1, h2, h3, h4, h5, h6, h8⟩
+
+open Replicat.Cred in
+/-- **A long-lived object behaves as the abstract store, whatever happens to its credentials.**  Every history of operations on one
+B2 object with credential events (account tokens expire, upload URLs / tokens expire, both, upload pods are retired) anywhere between
+the operations, started on a fresh object or in any other state: every operation returns what the abstract store returns, each after
+at most 5 requests, at most one re-authorisation and no sleep. -/
+theorem session_refines_store (F : Nat) (hF : 2 ≤ F) (steps : List Step) (s : Sess) (hw : WF s) (hok : StepsOk s.store steps) :
+    (runSession cfgB2 F steps s).map (·.out) = (specSession steps s.store).map R.ok ∧
+    ∀ r ∈ runSession cfgB2 F steps s, r.requests ≤ 5 ∧ r.auths ≤ 1 ∧ r.sleeps = 0 := by
+  obtain ⟨f, rfl⟩ : ∃ f, F = f + 2 := ⟨F - 2, by omega⟩
+  exact runSession_spec cfgB2 credentials_cfg_sound.1 f steps s hw hok
+
+/-- the session configuration as extracted, but with upload credentials KEPT on the object and handed out again by
+`_get_upload_url_token` (and `requires_auth` unbounded, as in the source) -/
+def cachedCreds : Cred.Cfg := { Cred.cfgB2 with credsFresh := false, base := b2Unbounded }
+
+open Replicat.Cred in
+/-- **Fresh upload credentials are needed.**  The same model with the pair kept on the object: in ANY state in which the object
+holds upload credentials the service no longer accepts, an upload never ends — for every fuel `F + 1` the model is still running
+after `F + 1` attempts and `F + 1` authorisations (each re-authentication renews the account token only, the dead upload token is
+presented again) — and nothing is stored.  ONE upload followed by ONE expiry event leaves such a state: with the pair kept, the
+history upload ; ⟨upload credentials expire⟩ ; upload does not get past its second upload, with the extracted configuration both
+uploads return. -/
+theorem cached_upload_credentials_unbounded_witness (F n : Nat) (d : Bytes) (s : Sess) (u : Nat)
+    (hq : Quiet s) (hau : s.authed = true) (hu : s.upCred = some u) (hx : u < s.upLive) :
+    (uploadOp cachedCreds (F + 1) n d s).1 = .fuel ∧ (uploadOp cachedCreds (F + 1) n d s).2.store = s.store ∧
+    (uploadOp cachedCreds (F + 1) n d s).2.auths = s.auths + (F + 1) ∧
+    (runSession cachedCreds 8 [.op (.upload 0 [1, 2]) none, .ev .expireUpload, .op (.upload 1 [3]) none] (Sess.init false)).map (·.out)
+      = [.ok .unit, .fuel] ∧
+    (runSession cfgB2 8 [.op (.upload 0 [1, 2]) none, .ev .expireUpload, .op (.upload 1 [3]) none] (Sess.init false)).map (·.out)
+      = [.ok .unit, .ok .unit] := by
+  have hpol : ∀ rounds, cachedCreds.pol .auth 1 rounds = .reauth false := by
+    intro rounds
+    show policy .b2 cachedCreds.base cachedCreds.decorated cachedCreds.requiresAuth .auth 1 rounds = _
+    rw [policy_auth]
+    have h1 : cachedCreds.requiresAuth = true := by decide
+    have h2 : cachedCreds.base.reauthOnAuthRequired = true := by decide
+    have h3 : reauthAllowed cachedCreds.base rounds = true := rfl
+    simp [h1, h2, h3]
+  obtain ⟨r1, r2, r3, _⟩ := stale_upload cachedCreds rfl (by decide) hpol n d u F s hq hau hu hx
+  exact ⟨r1, r2, r3, by decide, by decide⟩
+
 /-! ## non-vacuity -/
+
+open Replicat.Cred in
+/-- a history with every kind of credential event between operations satisfies the hypothesis of `session_refines_store`, and the
+model needs re-authorisations to get through it (the events bite) -/
+example : StepsOk (Sess.init false).store
+      [.op (.upload 0 [1, 2]) none, .ev .expireAll, .op (.upload 1 [3]) none, .ev .expireUpload, .op (.upload 0 [4]) none,
+       .ev .retirePods, .op (.download 0) none, .ev .expireAccount, .op (.list 3) none, .op (.delete 1) none, .op (.exists 1) none] ∧
+    (runSession cfgB2 5 [.op (.upload 0 [1, 2]) none, .ev .expireAll, .op (.upload 1 [3]) none, .ev .expireUpload, .op (.upload 0 [4]) none,
+       .ev .retirePods, .op (.download 0) none, .ev .expireAccount, .op (.list 3) none, .op (.delete 1) none, .op (.exists 1) none]
+       (Sess.init false)).map (fun r => (r.requests, r.auths)) = [(4, 1), (4, 1), (2, 0), (1, 0), (3, 1), (1, 0), (1, 0)] := by
+  refine ⟨⟨rfl, trivial, rfl, trivial, rfl, trivial, rfl, rfl, rfl, trivial, rfl, trivial, rfl, trivial, trivial⟩, by decide⟩
+
 
 /-- the hypotheses of `masked_upload` are satisfiable with faults strictly inside the transfer, and its conclusion is what the
 model computes -/
